@@ -232,7 +232,22 @@ fn cancel_space<T: Fx>(kind: u8, al: Vec<u32>) -> Space {
 
 pub fn c05<T: Fx>(thorough: bool) -> Vec<CellDef> {
     let mut v = vec![];
+    // operand pairs whose exact product has a sparse tail (see deep.rs), shared by the three kinds
+    let deep: Option<(std::sync::Arc<Vec<(u32, u32)>>, i32, String)> = match T::N {
+        16 => {
+            let z = if thorough { 12 } else { 14 };
+            Some((std::sync::Arc::new(crate::deep::pairs16(z)), 16, format!("every positive P16E1 pair whose exact product ends in a lone bit below >= {z} zeros or in > {z} ones (complete search of 2^29 pairs)")))
+        }
+        32 => {
+            let z = if thorough { 16 } else { 20 };
+            Some((std::sync::Arc::new(crate::deep::pairs32(z, true)), 34, format!("a in [1,2) with a 27-bit fraction shape x b at every scale with every fraction shape, kept when the exact product has a sparse tail of length >= {z}")))
+        }
+        _ => None,
+    };
     for kind in 0..3u8 {
+        if let Some((pairs, depth, what)) = &deep {
+            v.push(CellDef::new("C05", format!("{}/{}#deep", T::NAME, KINDS[kind as usize]), crate::deep::space(T::N, T::ES, pairs.clone(), *depth, true, what), move |k| fma_case::<T>(kind, k)));
+        }
         for (sfx, sp) in triples::<T>(thorough) {
             v.push(CellDef::new("C05", format!("{}/{}{}", T::NAME, KINDS[kind as usize], sfx), sp, move |k| fma_case::<T>(kind, k)));
         }
